@@ -5,4 +5,4 @@ From UM Require Import Base.BytesDef Base.Dec Base.RespT Model.Ttl.
 Set Extraction Optimize.
 Separate Extraction
   Dec.btoi_i64 Dec.to_dec Dec.Z_to_dec Dec.btou
-  Ttl.ttl_restore Ttl.scan_entry Ttl.pull_entry Ttl.restore_cmd.
+  Ttl.ttl_restore Ttl.scan_entry Ttl.pull_entry Ttl.restore_cmd Ttl.batch_cmds.
